@@ -7,14 +7,9 @@ Known findings (IDNA / urlsplit are outside the model, so they have no Lean coun
 F15a `uri_to_iri` raises UnicodeError for a malformed `xn--` label, F15b `uri_to_iri` unquotes
 `%5B` / `%5D` inside the userinfo.
 
--- OPEN (P1, checked by stream iri-uri on every run, not proved): stability of the round trip
--- IRI -> URI -> IRI, i.e. for every component text `s`, keep table `k` and safe set of `iri_to_uri`,
---   with x := unquotePartial k (quote safe s):   unquotePartial k (quote safe x) = x      (iri_uri_iri)
--- Missing: that `quote` of the decoder's output re-creates the same byte runs (the converse of
--- `unquote_decodeQ`). The one-step fixpoint of `uri_to_iri` itself is proved below
--- (`uriToIri_fixpoint`).
+All theorems listed in DESIGN.md for C15 (P0 and P1) are proved below; nothing is left OPEN.
 -/
-import WzVerif.Lemmas.UrlRoundtrip
+import WzVerif.Lemmas.UrlStable
 namespace Wz.Props.C15
 open Wz Wz.Url
 
@@ -186,6 +181,37 @@ theorem uriToIri_fixpoint_parts (p : Parts) (hp : wellFormed p.path = true)
     (uriToIri { p with path := i.path, query := i.query, fragment := i.fragment }).fragment = i.fragment :=
   ⟨(uriToIri_fixpoint p.path hp).1, (uriToIri_fixpoint p.query hq).2.1,
    (uriToIri_fixpoint p.fragment hf).2.2.1⟩
+
+/-- **IRI → URI → IRI is stable after one round** ("undone by URI-to-IRI up to normalisation"):
+for every component text `s` of the `%XX` grammar, with `u = quote(s, safe)` what `iri_to_uri` makes
+of it and `x = _unquote_partial(u)` the normalised IRI component, converting `x` to a URI and back
+gives `x` again - for each pairing of `iri_to_uri`'s safe set with `uri_to_iri`'s keep table
+(path, query, fragment, userinfo). -/
+theorem iri_uri_iri (s : Str) (hs : wellFormed s = true) :
+    (let x := unquotePartial Gen.UrlTables.keepPath (quote Gen.UrlTables.iriPathSafe s)
+     unquotePartial Gen.UrlTables.keepPath (quote Gen.UrlTables.iriPathSafe x) = x) ∧
+    (let x := unquotePartial Gen.UrlTables.keepQuery (quote Gen.UrlTables.iriQuerySafe s)
+     unquotePartial Gen.UrlTables.keepQuery (quote Gen.UrlTables.iriQuerySafe x) = x) ∧
+    (let x := unquotePartial Gen.UrlTables.keepFragment (quote Gen.UrlTables.iriFragmentSafe s)
+     unquotePartial Gen.UrlTables.keepFragment (quote Gen.UrlTables.iriFragmentSafe x) = x) ∧
+    (let x := unquotePartial Gen.UrlTables.keepUser (quote Gen.UrlTables.iriUserSafe s)
+     unquotePartial Gen.UrlTables.keepUser (quote Gen.UrlTables.iriUserSafe x) = x) ∧
+    (let x := unquotePartial Gen.UrlTables.keepUser (quote Gen.UrlTables.iriPasswordSafe s)
+     unquotePartial Gen.UrlTables.keepUser (quote Gen.UrlTables.iriPasswordSafe x) = x) := by
+  have key : ∀ (safe : Str) (keep : List Bool) (hp : safe.contains '%' = true) (hk : KeepOK keep),
+      unquotePartial keep (quote safe (unquotePartial keep (quote safe s)))
+        = unquotePartial keep (quote safe s) := by
+    intro safe keep hp hk
+    apply unquotePartial_quote_stable hp hk _ (wellFormed_quote hp s hs)
+    intro c hc
+    obtain ⟨b, _, hb⟩ := List.mem_flatMap.mp hc
+    exact quoteByte_fixed hp b c hb
+  exact ⟨key _ _ (by decide) keep_tables_ok.1, key _ _ (by decide) keep_tables_ok.2.1,
+    key _ _ (by decide) keep_tables_ok.2.2.1, key _ _ (by decide) keep_tables_ok.2.2.2,
+    key _ _ (by decide) keep_tables_ok.2.2.2⟩
+
+example : unquotePartial Gen.UrlTables.keepPath (quote Gen.UrlTables.iriPathSafe "/é %41%2F%FF".toList)
+    = "/é%20A%2F%FF".toList := by decide
 
 /-- Outside that grammar the statement is false - a bare `%` can combine with a decoded digit
 (`uri_to_iri("%%34%31") = "%41"`, whose image is `"A"`): -/
